@@ -128,3 +128,19 @@ def stale_strip(names):
         r.append(', ')
     del r[-1]                      # T9: the test is about the value before the re-binding
     return r
+
+
+def bad_intstr(pyval):
+    pyvaltype = type(pyval)
+    if pyvaltype is int:
+        return str(pyval)              # T10: ValueError beyond sys.int_max_str_digits
+    return ''
+
+
+def good_intstr(pyval):
+    if isinstance(pyval, int):
+        try:
+            return str(pyval)
+        except ValueError:
+            return hex(pyval)
+    return ''
